@@ -257,7 +257,16 @@ fn main() {
                     let fill = if rng.chance(1, 6) { rng.pick(&["", "ab", "漢", "\u{301}"]).to_string() } else { rng.pick(&[" ", "-", "·", "x"]).to_string() };
                     let min = gen_max(&mut rng).min(40);
                     let content = recorder(&data, &mut rng);
-                    let fillr = recorder(&fill, &mut rng);
+                    // write_padding repeats every recorded range separately ("the byte sequence
+                    // shouldn't be broken up to multiple labeled regions", text_util.rs:377-379):
+                    // the fill is recorded as one labelled region
+                    let fillr = {
+                        let mut rec = FormatRecorder::new(false);
+                        rec.push_label("fill");
+                        rec.write_all(fill.as_bytes()).unwrap();
+                        rec.pop_label();
+                        rec
+                    };
                     let r = jjv::catch(|| {
                         let mut out = Vec::new();
                         let mut f = PlainTextFormatter::new(&mut out);
